@@ -64,6 +64,7 @@ def main():
     ap.add_argument("--id")
     ap.add_argument("--seeded", action="store_true", help="run the seeded/<id>/patch.diff changes instead")
     ap.add_argument("--seed", default="1", help="VERIF_SEED for the checks; with a value other than 1 nothing is recorded")
+    ap.add_argument("--start-after", help="skip everything up to and including this id (to resume a run)")
     a = ap.parse_args()
     if a.seeded:
         muts = []
@@ -83,6 +84,9 @@ def main():
         muts = [m for m in muts if m["prop"] in a.prop.split(",")]
     if a.id:
         muts = [m for m in muts if m["id"] == a.id]
+    if a.start_after:
+        ids = [m["id"] for m in muts]
+        muts = muts[ids.index(a.start_after) + 1:]
     bad = 0
     for m in muts:
         d = make_copy()
